@@ -8,7 +8,8 @@ from vlib.runner import Result, SubCheck, Violation
 
 PROPERTY = "C15"
 LEVEL = "exploration"
-RULE = ("Generated simulations: 1..3 bandits over every policy pair sharing one arm list (context-free bandits only "
+RULE = ("One bandit in three has been trained and queried through the public API before the Simulator (and the reference copy) sees it. "
+        "Generated simulations: 1..3 bandits over every policy pair sharing one arm list (context-free bandits only "
         "when the data set has no contexts; with probability 1/2 several Radius or several KNearest bandits with "
         "different metrics), 8..40 rows, test_size from a drawn test count, is_ordered, batch_size in {0, 1..|test|}, "
         "is_quick, seeds, list or ndarray data. Every bandit is deep-copied before the Simulator sees it and the copy "
